@@ -353,6 +353,37 @@ func (w *world) judge(final bool) {
 			w.violationLocked("out-of-order/"+w.ctx(), fmt.Sprintf("item %d (due %s) executed while item %d (due %s), enqueued before the loop's peek, was still queued", c.it.id, c.it.due.Format("05.000000"), it2.id, it2.due.Format("05.000000")))
 			return
 		}
+		// order, second form: the callback that ended last before this one started marks a point at which
+		// this item's callback had not begun; an earlier-due item whose Enqueue had returned even before
+		// THAT callback ended was sitting in the queue all along and goes first
+		var prev *cbRec
+		for _, p := range w.cbs {
+			if p != c && p.end != 0 && p.end < c.start && (prev == nil || p.end > prev.end) {
+				prev = p
+			}
+		}
+		if prev != nil {
+			for it2, e2 := range enqOf {
+				if it2 == c.it || e2.ret == 0 || e2.ret >= prev.end || !it2.due.Before(c.it.due) {
+					continue
+				}
+				if c2, ran := cbOf[it2]; ran && c2.start < c.start {
+					continue
+				}
+				removed := false
+				for _, r := range byKey[it2.key] {
+					if r != e2 && r.ret != 0 && r.ret > e2.call && r.call < c.start {
+						removed = true
+					}
+				}
+				if removed || (w.closeCall > 0 && w.closeCall < c.start) {
+					continue
+				}
+				w.violationLocked("out-of-order/after-callback/"+w.ctx(), fmt.Sprintf("item %d (due %s) executed while item %d (due %s) was still queued: its Enqueue had returned (stamp %d) before the previous callback (item %d) ended (stamp %d)", c.it.id, c.it.due.Format("05.000000"), it2.id, it2.due.Format("05.000000"), e2.ret, prev.it.id, prev.end))
+				return
+			}
+			rec.Count("order.checked_against_items_queued_before_previous_callback_ended", 1)
+		}
 		// after Close returned nothing runs
 		if w.closeRet > 0 && c.start > w.closeRet {
 			w.violationLocked("callback-after-close/"+w.ctx(), fmt.Sprintf("item %d executed after Close returned", c.it.id))
@@ -511,6 +542,26 @@ func plans() []plan {
 						ps = append(ps, plan{mode: "directed", ops: ops, desc: fmt.Sprintf("twoloops loop.empty#%d|%s+%s+%s/%s-first", n, h2, k1, k2, order[0])})
 					}
 				}
+			}
+		}
+	}
+	// backlog: the loop is stopped between peek and pop while the clock passes SEVERAL items, the first callback
+	// blocks, and an overdue item that belongs between the ones already due is enqueued meanwhile
+	for _, h := range []string{"loop.peeked", "loop.armed", "loop.fired"} {
+		for _, nDue := range []int{2, 3} {
+			for _, xoff := range []time.Duration{-3500 * time.Microsecond, -2500 * time.Microsecond, -10 * time.Millisecond} {
+				ops := []op{{Kind: "gate-on"}, {Kind: "arm", Hook: h, N: 1}, {Kind: "enq", Key: "a", Off: time.Millisecond}}
+				if h == "loop.fired" {
+					// the timer has to fire for the loop to get there
+					ops = append(ops, op{Kind: "sleep", Off: time.Millisecond})
+				}
+				ops = append(ops, op{Kind: "placed"}, op{Kind: "enq", Key: "b", Off: 2 * time.Millisecond})
+				if nDue == 3 {
+					ops = append(ops, op{Kind: "enq", Key: "c", Off: 3 * time.Millisecond})
+				}
+				ops = append(ops, op{Kind: "sleep", Off: 5 * time.Millisecond}, op{Kind: "resume"},
+					op{Kind: "enq", Key: "x", Off: xoff}, op{Kind: "gate-release"})
+				ps = append(ps, plan{mode: "directed", ops: ops, desc: fmt.Sprintf("backlog %s due=%d x@%v", h, nDue, xoff)})
 			}
 		}
 	}
@@ -719,7 +770,9 @@ func runSeq(t *testing.T, idx int, pl plan) {
 				placedMode = false
 				resumeLoop()
 				quiesce()
-				w.judge(false)
+				if !w.gateOn.Load() {
+					w.judge(false)
+				}
 				continue
 			case "enq":
 				if placedMode {
